@@ -300,26 +300,46 @@ func c13pairing(c *an.Ctx) {
 				il, _ = an.AsIndexLoop(l)
 			}
 		}
+		// The accepted deltas: len(msgs) is right once the loop is exhausted; the loop index is
+		// right wherever it is read after the loop was entered (it counts the completed
+		// iterations, and an iteration completes only through the success edge of put).
+		// Both clauses are decided per path from the loop entry: every path that leaves the
+		// loop by exhaustion passes an add of len(msgs) or the index before it returns, every
+		// path that leaves it through a failed put passes an add of the index.
 		fullOK, partialOK := false, false
-		an.Instrs(fn, func(in ssa.Instruction) {
-			_, d, ok := atomicAdd(in, tCount)
-			if !ok {
-				return
-			}
-			if a := lenArgOf(d); a != nil && isParam(a, fn, 1) {
-				// on the exhaustion path
-				if il != nil && (il.Done.Dominates(in.Block()) || il.Done == in.Block()) {
-					fullOK = true
+		if il != nil {
+			var entry []an.Edge
+			for _, p := range il.Header.Preds {
+				if !il.Blocks[p] {
+					entry = append(entry, an.Edge{From: p, To: il.Header})
 				}
 			}
-			if il != nil && an.Strip(d) == an.Strip(il.Idx) {
-				for _, fe := range fail {
-					if fe.To.Dominates(in.Block()) || fe.To == in.Block() {
-						partialOK = true
-					}
+			isIdx := func(d ssa.Value) bool { return an.Strip(d) == an.Strip(il.Idx) }
+			addOf := func(accept func(ssa.Value) bool) func(ssa.Instruction, *an.PathState) bool {
+				return func(in ssa.Instruction, _ *an.PathState) bool {
+					_, d, ok := atomicAdd(in, tCount)
+					return ok && accept(d)
 				}
 			}
-		})
+			isRet := func(in ssa.Instruction, _ *an.PathState) bool { _, ok := in.(*ssa.Return); return ok }
+			nAdds := 0
+			an.Instrs(fn, func(in ssa.Instruction) {
+				if _, _, ok := atomicAdd(in, tCount); ok {
+					nAdds++
+				}
+			})
+			q := &an.PathQ{Fn: fn, StartEdges: entry, Sink: isRet,
+				CutEdge: func(e an.Edge, _ *an.PathState) bool { return an.EdgeIn(e, fail) },
+				Cut: addOf(func(d ssa.Value) bool {
+					a := lenArgOf(d)
+					return (a != nil && isParam(a, fn, 1)) || isIdx(d)
+				})}
+			_, f := q.Find()
+			fullOK = !f && nAdds > 0 && len(entry) > 0
+			q2 := &an.PathQ{Fn: fn, StartEdges: fail, Sink: isRet, Cut: addOf(isIdx)}
+			_, f2 := q2.Find()
+			partialOK = !f2 && len(fail) > 0
+		}
 		c.Check(fullOK, fn, "message_count += len(msgs) after the whole batch was put", fn.Pos(), "", "PutMessages does not add len(msgs) to message_count on the all-succeeded path")
 		c.Check(partialOK, fn, "message_count += i when put #i failed", fn.Pos(), "", "PutMessages does not account for the i messages already queued when a later put fails")
 	}
